@@ -119,3 +119,10 @@ package smpp
 //@   theory none
 //@   requires 0 <= d
 //@   ensures [C19 denotes] (d / 86400000000000) * 86400 + ((d / 3600000000000) % 24) * 3600 + ((d / 60000000000) % 60) * 60 + (d / 1000000000) % 60 == d / 1000000000
+
+// ---------------------------------------------------------------- header peeking (C02, C03)
+
+//@ func PeekHeader
+//@   props C02,C03
+//@   ensures [C03 short] len(buf) < 16 ==> err != nil
+//@   ensures [C02 fields] len(buf) >= 16 ==> err == nil && int(h.Length) == dbe32(ext(content(buf), 0, 4)) && int(h.ID) == dbe32(ext(content(buf), 4, 8)) && int(h.Status) == dbe32(ext(content(buf), 8, 12)) && int(h.Sequence) == dbe32(ext(content(buf), 12, 16))
